@@ -27,6 +27,15 @@ STRATEGIES = {
 }
 
 
+def time_scale():
+    """wall-clock budgets are multiplied by VERIF_TIMEOUT_SCALE (set by the runner: machine load at start, x4 in the
+    retry pass for obligations that ended inconclusive) so that a verdict does not depend on how busy the host is"""
+    try:
+        return max(0.25, float(os.environ.get("VERIF_TIMEOUT_SCALE", "1") or 1))
+    except ValueError:
+        return 1.0
+
+
 def _tok(s):
     return re.findall(r"\(|\)|[^\s()]+", s)
 
@@ -128,6 +137,7 @@ def run_portfolio(constraints, strategies, timeout_s=60.0, want_model=True, trus
     """constraints: list of z3 Bool, or a list of alternative (equivalent) constraint lists.
     returns (result str, DictModel|None, info dict)"""
     variants = constraints if (constraints and isinstance(constraints[0], (list, tuple))) else [constraints]
+    timeout_s = timeout_s * time_scale()
     t0 = time.time()
     procs = []
     tmpdir = tempfile.mkdtemp(prefix="vq", dir=os.environ.get("VERIF_TMP", None))
